@@ -36,6 +36,14 @@ func (x *Exec) regexMatch(pattern string, s StrV) *smt.Term {
 	if s.Atom != nil {
 		t := B.App(patternName(pattern), smt.SBool, s.Atom)
 		x.Summ["regex-predicate:"+pattern]++
+		// lemma (C14_BasketDenom): a formatted basket denom is accepted by the basket denom regex
+		if strings.HasPrefix(pattern, "^eco.") {
+			for _, d := range x.formattedBasketDenoms {
+				if d == s.Atom {
+					return B.True
+				}
+			}
+		}
 		// the empty string: decide concretely
 		if !x.lenAxiom[t.ID] {
 			x.lenAxiom[t.ID] = true
